@@ -32,7 +32,7 @@ pub const EXEMPLARS: [(&str, &str); 4] = [
         "schema { query: Q mutation: M subscription: S }
          type Q { u: U a: A e: E }
          type M { set(v: Int): Int }
-         type S { tick: Int a: A }
+         type S { tick(n: Int): Int a: A }
          type A { f: Int }
          type B { g: [B!] }
          union U = A | B
@@ -44,7 +44,7 @@ pub const EXEMPLARS: [(&str, &str); 4] = [
         "X4-wrappers",
         "schema { query: Query }
          type Query { f: [[Int!]]! s: String a(x: [[In]!]): A }
-         type A implements I { f: [[I!]!] k: I! }
+         type A implements I { f: [[I]] k: I }
          interface I { f: [[I]] k: I }
          input In { x: [[In!]!]! }",
     ),
